@@ -1,8 +1,11 @@
 """C04 — every connection is answered; no input can crash the server.
 Campaign: grammar-based mutation of valid requests on both entry points over generated trees,
 handlers that fail, read errors.  Oracle (implementation only): no panic/abort, exactly one
-complete well-framed response, error status for requests that cannot be parsed or served."""
-from vlib import common as C, serve as S, reqgen as G, strict_http as H, servecheck as K
+complete well-framed response, error status for requests that cannot be parsed or served.
+The input classes added by the generator audit live in vlib/gen_c04.py (own batches, own trees, other
+configurations); when the scripted stream refuses bytes (failed write, zero-length accept, failed flush)
+the connection is broken and only the no-panic clause is judged."""
+from vlib import common as C, serve as S, reqgen as G, strict_http as H, servecheck as K, gen_c04 as X
 
 DRIVERS = ['Serve']   # model driver files this check runs: scopes translator failures to the tables they (and the proofs) import
 TRUSTED = ['scripted transport of the harness stands for the socket; Server::process is driven in-process on a named 2 MiB-stack thread as workers are']
@@ -15,6 +18,9 @@ def build(rng, tier):
     per = 450 if tier == 'quick' else 2500
     for ti in range(ntrees):
         tree = S.gen_tree(rng, small=True)
+        # the fixed lists below go through both entry points: item k of a list takes entry (k + tree index) % 2, so over the trees of
+        # a run every item meets Server::process AND Server::process_request (a defect may sit in one of the twin functions only)
+        alt = X.Alt(ti)
         paths = ['/' + n.decode('utf-8', 'surrogateescape') for n in tree.names] + ['/sub', '/sub/', '/emptydir', '/page', '/missing', '/sub/deep']
         cases = []
         for i in range(per):
@@ -55,6 +61,9 @@ def build(rng, tier):
             for entry in ('proc', 'preq'):
                 cases.append(K.mk(tree, '?', '?', entry=entry, raw=raw, kind='corpus'))
         p0n = rng.choice(paths)
+        # numbers in Range headers only matter on a file that exists and has content: ask them of one (and of the random path as before)
+        existing = [f for f, c in X.regular_files(tree) if len(c) > 1]        # sub/deep/keep.txt is in every tree
+        pfile = rng.choice(existing) if existing else p0n
         # every spelling of a media type and its parameters that HTTP allows or a client may send (names are case-insensitive,
         # optional white space, quoted values, other parameters before the one looked for, control characters): a handler that
         # matches one spelling and extracts with another must still answer
@@ -69,32 +78,36 @@ def build(rng, tier):
             for hn in ('Content-Type', 'content-type', 'CONTENT-TYPE'):
                 if hn != 'Content-Type' and not ctv.lower().startswith(('multipart/form-data; b', 'application/x-www-form-urlencoded')): continue
                 for tgt, body in (('/form-multipart-enctype-post-method', mp_body), ('/form-url-encoded-enctype-post-method', b'a=1&b=2')):
-                    cases.append(K.mk(tree, 'POST', tgt, [(hn, ctv)], body, entry=rng.choice(['proc', 'preq']), kind='media-type-spelling'))
+                    cases.append(K.mk(tree, 'POST', tgt, [(hn, ctv)], body, entry=alt(), kind='media-type-spelling'))
         # the same field / key / header more than once, in every place the server builds a map from client input
         for body in (b'color=red&color=green', b'a=1&b=2&a=3', b'tag&tag', b'a=1&a=1', b'A=1&a=2', b'a%20b=1&a+b=2', b'=1&=2', b'x=1&' * 40 + b'x=2'):
-            cases.append(K.mk(tree, 'POST', '/form-url-encoded-enctype-post-method', [('Content-Type', 'application/x-www-form-urlencoded')], body, entry=rng.choice(['proc', 'preq']), kind='repeated-field'))
-            cases.append(K.mk(tree, 'GET', '/form-get-method?' + body.decode(), [], entry=rng.choice(['proc', 'preq']), kind='repeated-field'))
-            cases.append(K.mk(tree, 'POST', '/file-upload/initiate?name=a&lastModified=1&size=2&' + body.decode(), [], entry=rng.choice(['proc', 'preq']), kind='repeated-field'))
+            cases.append(K.mk(tree, 'POST', '/form-url-encoded-enctype-post-method', [('Content-Type', 'application/x-www-form-urlencoded')], body, entry=alt(), kind='repeated-field'))
+            cases.append(K.mk(tree, 'GET', '/form-get-method?' + body.decode(), [], entry=alt(), kind='repeated-field'))
+            cases.append(K.mk(tree, 'POST', '/file-upload/initiate?name=a&lastModified=1&size=2&' + body.decode(), [], entry=alt(), kind='repeated-field'))
         two = b'--B\r\nContent-Disposition: form-data; name="a"\r\n\r\n1\r\n--B\r\nContent-Disposition: form-data; name="a"; filename="f"\r\n\r\n2\r\n--B--\r\n'
-        cases.append(K.mk(tree, 'POST', '/form-multipart-enctype-post-method', [('Content-Type', 'multipart/form-data; boundary=B')], two, kind='repeated-field'))
+        cases.append(K.mk(tree, 'POST', '/form-multipart-enctype-post-method', [('Content-Type', 'multipart/form-data; boundary=B')], two, entry=alt(), kind='repeated-field'))
         for hn in ('Host', 'Origin', 'Range', 'Content-Type', 'Content-Length', 'Access-Control-Request-Method'):
             v = {'Range': 'bytes=0-0', 'Content-Length': '0', 'Content-Type': 'text/plain'}.get(hn, 'http://a')
-            cases.append(K.mk(tree, 'GET', p0n, [(hn, v), (hn, v)], entry=rng.choice(['proc', 'preq']), kind='repeated-header'))
-            cases.append(K.mk(tree, 'OPTIONS', p0n, [(hn.lower(), v), (hn, v + '1'), (hn.upper(), '')], entry=rng.choice(['proc', 'preq']), kind='repeated-header'))
+            for pth in (p0n, pfile):
+                cases.append(K.mk(tree, 'GET', pth, [(hn, v), (hn, v)], entry=alt(), kind='repeated-header'))
+                cases.append(K.mk(tree, 'OPTIONS', pth, [(hn.lower(), v), (hn, v + '1'), (hn.upper(), '')], entry=alt(), kind='repeated-header'))
         # client-supplied numbers at and around every machine-integer limit, in every place a handler or parser reads a number:
         # query parameters of the built-in endpoints, Content-Length, Range bounds (arithmetic on them must not overflow)
         LIMITS = [0, 1, 255, 256, 32767, 32768, 65535, 65536, 2**31 - 1, 2**31, 2**32 - 1, 2**32, 2**63 - 1, 2**63, 2**64 - 1, 2**64, 2**127 - 1, 2**127, 2**128 - 1, 2**128]
         nums = sorted({str(v + d) for v in LIMITS for d in (-2, -1, 0, 1)} | {str(2**63 - 1 - k) for k in (5999, 6000, 9999, 10000, 3999, 4000)} |
                       {'-' + str(v) for v in (1, 2**31, 2**63, 2**63 + 1, 2**127)} | {'+1', '1e3', '0x10', '00000000000000000000000000000001', '9' * 40, '', ' 1', '1.5', 'NaN'})
-        for nv in (nums if (tier != 'quick' or ti == 0) else []):
+        for nv in (nums if (tier != 'quick' or ti < 2) else []):      # two trees in the quick tier: the second one sends every item through the other entry point
             for field in ('size', 'lastModified', 'name'):
                 q = '&'.join(f'{k}={nv if k == field else "7"}' for k in ('name', 'lastModified', 'size'))
-                cases.append(K.mk(tree, 'POST', '/file-upload/initiate?' + q, [], entry=rng.choice(['proc', 'preq']), kind='numeric-limit-query'))
-            cases.append(K.mk(tree, 'GET', '/form-get-method?size=' + nv + '&n=' + nv, [], entry='proc', kind='numeric-limit-query'))
-            cases.append(K.mk(tree, 'POST', '/form-url-encoded-enctype-post-method', [('Content-Type', 'application/x-www-form-urlencoded'), ('Content-Length', nv)], entry=rng.choice(['proc', 'preq']), kind='numeric-limit-header'))
-            cases.append(K.mk(tree, 'GET', p0n, [('Range', f'bytes={nv}-')], entry='proc', kind='numeric-limit-header'))
-            cases.append(K.mk(tree, 'GET', p0n, [('Range', f'bytes=0-{nv}')], entry='proc', kind='numeric-limit-header'))
-            cases.append(K.mk(tree, 'GET', p0n, [('Range', f'bytes=-{nv}')], entry='proc', kind='numeric-limit-header'))
+                cases.append(K.mk(tree, 'POST', '/file-upload/initiate?' + q, [], entry=alt(), kind='numeric-limit-query'))
+            cases.append(K.mk(tree, 'GET', '/form-get-method?size=' + nv + '&n=' + nv, [], entry=alt(), kind='numeric-limit-query'))
+            cases.append(K.mk(tree, 'POST', '/form-url-encoded-enctype-post-method', [('Content-Type', 'application/x-www-form-urlencoded'), ('Content-Length', nv)], b'size=' + nv.encode(), entry=alt(), kind='numeric-limit-header'))
+            for pth in (p0n, pfile):
+                e = alt()
+                cases.append(K.mk(tree, 'GET', pth, [('Range', f'bytes={nv}-')], entry=e, kind='numeric-limit-header'))
+                cases.append(K.mk(tree, 'GET', pth, [('Range', f'bytes=0-{nv}')], entry=e, kind='numeric-limit-header'))
+                cases.append(K.mk(tree, 'GET', pth, [('Range', f'bytes=-{nv}')], entry=e, kind='numeric-limit-header'))
+                cases.append(K.mk(tree, 'GET', pth, [('Range', f'bytes=0-0,{nv}-{nv}')], entry=e, kind='numeric-limit-header'))
         # long targets / header values with a multi-byte character at every offset around the lengths a
         # logger or a fixed-size field would cut at (64, 128, 255, 256, 512, 1024)
         p0 = rng.choice(paths)
@@ -102,14 +115,14 @@ def build(rng, tier):
             for ch in ('é', '€', '\U0001F600'):
                 for off in (0, 1, 2, 3):
                     k = cut - 1 - off
-                    cases.append(K.mk(tree, 'GET', '/' + 'a' * k + ch + 'b' * 40, [], entry='proc', kind='long-multibyte-target'))
+                    cases.append(K.mk(tree, 'GET', '/' + 'a' * k + ch + 'b' * 40, [], entry=alt(), kind='long-multibyte-target'))
                     if off < 2:
-                        cases.append(K.mk(tree, 'GET', p0, [('Cookie', 'c' * (k + 1) + ch + 'd' * 40)], entry=rng.choice(['proc', 'preq']), kind='long-multibyte-header'))
+                        cases.append(K.mk(tree, 'GET', p0, [('Cookie', 'c' * (k + 1) + ch + 'd' * 40)], entry=alt(), kind='long-multibyte-header'))
         # very many small units inside the buffer, and inside a much larger configured buffer
         mp_head = b'POST /form-multipart-enctype-post-method HTTP/1.1\r\nContent-Type: multipart/form-data; boundary=%s\r\n\r\n'
         wf = b''.join(b'--B\r\nContent-Disposition: form-data; name="f%d"\r\n\r\nv\r\n' % i for i in range(170)) + b'--B--\r\n'
-        cases.append(K.mk(tree, 'POST', '/form-multipart-enctype-post-method', raw=(mp_head % b'B') + wf, kind='many-parts'))
-        cases.append(K.mk(tree, 'POST', '/form-multipart-enctype-post-method', raw=(mp_head % b'X') + b'X\n' + b'a:1\n\nX\n' * 1400, kind='many-parts'))
+        cases.append(K.mk(tree, 'POST', '/form-multipart-enctype-post-method', raw=(mp_head % b'B') + wf, entry=alt(), kind='many-parts'))
+        cases.append(K.mk(tree, 'POST', '/form-multipart-enctype-post-method', raw=(mp_head % b'X') + b'X\n' + b'a:1\n\nX\n' * 1400, entry=alt(), kind='many-parts'))
         if ti == 0:
             cases.append(K.mk(tree, 'POST', '/form-multipart-enctype-post-method', raw=(mp_head % b'X') + b'X\n' + b'a:1\n\nX\n' * 40000, alloc=400000, kind='many-parts-big-buffer'))
             cases.append(K.mk(tree, 'GET', '/', raw=b'GET ' + p0.encode('utf-8', 'surrogateescape') + b' HTTP/1.1\r\n' + b'a: b\r\n' * 60000 + b'\r\n', alloc=400000, kind='many-headers-big-buffer'))
@@ -121,6 +134,8 @@ def build(rng, tier):
                     cases.append(K.mk(tree, '?', '?', entry=entry, raw=fill * n, kind='oversized-malformed'))
         cases.append(Case_read_error(tree))
         batches.append((tree, cases))
+    # the input classes added by the generator audit (vlib/gen_c04.py), in batches of their own
+    batches += X.extra_batches(rng.fork('c04-audit'), tier)
     return batches
 
 def Case_read_error(tree):
@@ -128,35 +143,58 @@ def Case_read_error(tree):
     c.line = 'proc real 10000 e all ok'
     return c
 
+def transport_accepts_everything(c):
+    """does the scripted stream of the case take every byte the server offers (possibly a few at a time)?  A write call that fails
+    (`e:<k>`) or accepts nothing (`c:0`, a 0 in `s:…`) and a failing flush break the connection: the property then only asks that
+    the server does not crash"""
+    ws = c.ws or 'all'
+    if c.flush not in (None, 'ok'): return False
+    if ws == 'all': return True
+    if ws.startswith('c:'): return int(ws[2:]) > 0
+    if ws.startswith('s:'): return all(int(x) > 0 for x in ws[2:].split('.'))
+    return False
+
+def mask_returned(line):
+    """serve.canon leaves a result line as it is when nothing reached the stream; Server::process_request still RETURNS its response
+    then (first write call failed): mask the two timestamp headers in it as canon does everywhere else"""
+    if line.startswith('ret:') and ' w=- recv=- ' in line:
+        head, rest = line.split(' ', 1)
+        return 'ret:' + C.hx(S.mask_ts(C.unhx(head[4:]))) + ' ' + rest
+    return line
+
 def judge(res, results, status_table=None):
     for c, r, il, ml in results:
         res.evaluations += 1
         res.programs += 1 if ml is not None else 0
-        res.count(f'{c.entry} {c.kind}')
-        res.distinct.add(hash((c.entry, c.raw, c.app)))
-        if ml is not None and il != ml:
+        res.count(f'{c.entry} {c.kind.split(":")[0]}')
+        res.distinct.add(hash((c.entry, c.raw, c.app, c.ws, c.flush, c.alloc)))
+        if ml is not None and il != ml and c.note not in ('no-model-input', 'kernel-limit-not-modelled') and mask_returned(il) != mask_returned(ml):
             res.disagree(c.line[:400], il[:400], ml[:400], 'Server.process' if c.entry == 'proc' else 'Server.process_request')
         head = K.judge_common(res, c, r, 'C04')
         if head is None: continue
+        if not transport_accepts_everything(c):
+            res.count('result broken-transport')
+            continue
         raw = r['recv']
         resp, why = K.parse_resp(raw, status_table)
         res.count('result ' + (head[:3] if not head.startswith('ret:') else 'ret'))
         if resp is None:
             res.fail('incomplete-response', c.line[:300], r['raw'][:200], None, f'C04: not exactly one complete response: {why}; request {c.raw[:80]!r}')
             continue
-        parsable = K.request_is_parsable(c.raw, c.alloc or 10000)
+        parsable = K.request_is_parsable(c.raw, 10000 if c.alloc is None else c.alloc)
         # the method is only known (and HEAD/OPTIONS bodylessness only required) when the request line parses
-        fr = H.check_framing(resp, (c.method if c.kind in ('valid', 'handler-error') else firstword(c.raw)) if parsable else 'GET')
+        fr = H.check_framing(resp, (c.method if (c.kind in ('valid', 'handler-error') and c.method != '?') else firstword(c.raw)) if parsable else 'GET')
         fr = [x for x in fr if x != 'options-content-length']   # C05's clause (known finding F42), not C04's
         if fr:
             res.fail('framing:' + fr[0], c.line[:300], raw[:200].hex(), None, f'C04: response is not self-consistent: {fr}')
         res.count(f'status {resp["status"]}')
-        must_err = (c.kind in ('handler-error', 'read-error')) or not parsable
+        failing_handler = bool(c.app) and c.app.startswith('err:') and c.entry == 'proc'
+        must_err = failing_handler or c.kind == 'read-error' or not parsable
         if must_err and resp['status'] < 400:
             res.fail('no-error-status', c.line[:300], f'status {resp["status"]}', None,
                      f'C04: request cannot be parsed/served but was answered {resp["status"]}: {c.raw[:80]!r}')
         if c.entry == 'proc':
-            if must_err and head != 'err' and c.kind in ('handler-error', 'read-error'):
+            if must_err and head != 'err' and (failing_handler or c.kind == 'read-error'):
                 res.fail('error-not-reported', c.line[:300], head, None, 'C04: Server::process returned Ok although the handler/read failed')
 
 def firstword(raw):
@@ -166,15 +204,33 @@ def firstword(raw):
     except Exception: return '?'
 
 def run(res, tier, seed):
+    import threading
     rng = C.Rng(seed)
     batches = build(rng, tier)
+    # other configurations (every batch of one run_batches call shares its env): started first, they run beside the main campaign
+    confs = X.config_batches(rng.fork('c04-config'), tier)
+    conf_results = [None] * len(confs)
+    def conf_work(i):
+        pairs, tree, cases = confs[i]
+        conf_results[i] = K.run_batches([(tree, cases)], with_model=WITH_MODEL, env=pairs)
+    ts = [threading.Thread(target=conf_work, args=(i,)) for i in range(len(confs))]
+    for t in ts: t.start()
     results = K.run_batches(batches, with_model=WITH_MODEL)
+    for t in ts: t.join()
+    for cr in conf_results: results += cr
     judge(res, results)
-    for tree, _ in batches:
+    for tree in [t for t, _ in batches] + [t for _, t, _ in confs]:
         if not tree.setup_ok: res.notes.append('tree setup failed for a batch')
     res.rule = ('requests = valid grammar-derived (9 methods x paths of the generated tree, built-in routes, form endpoints, 0..6 headers '
                 'incl. hostile Origin/Range/Content-Length values) | targets not in origin form | 1..2 structure-unaware mutations of a valid '
                 'request | 1..4900 header lines | lengths 9998..20000 around the buffer | failing handlers | random bytes | read error; both entry '
-                'points; distinct = distinct (entry, request bytes, handler)')
+                'points (fixed lists alternate so that every item meets both) | audit classes (vlib/gen_c04.py): request-line grammar (method / version '
+                'spellings, separators, blanks before the line, tiny inputs), header-line shapes at three positions, one foreign byte sequence at every '
+                'part of five request templates, percent escapes at every decoder, every method x every non-origin-form target, target and tree-name '
+                'shapes, ranges relative to the size of the file through every lookup step, multipart grammar (dispositions, part bodies, part headers, '
+                'delimiters, boundary parameter, buffer end at every tail position), form / query shapes, endpoints x methods, failing and empty-answer '
+                'handlers x methods, transport scripts (short writes, write / flush errors) on every answer path, request buffer cut at every position, '
+                'served trees whose own pages are directories / empty / links / dangling / loops, CORS-list and small-buffer configurations; '
+                'distinct = distinct (entry, request bytes, handler, transport script, buffer size)')
     for c, r, il, ml in results[:3]:
         res.sample({'entry': c.entry, 'request': c.raw[:120].decode('latin1'), 'result': r['head'][:40], 'response_head': r['recv'][:60].decode('latin1')})
